@@ -8,6 +8,7 @@ import (
 	"fmt"
 	"reflect"
 	"strings"
+	"sync/atomic"
 	"testing"
 
 	"jetverif/core"
@@ -24,6 +25,55 @@ type c06Case struct {
 	Steps   []zStep `json:"steps"`
 	Expr    string  `json:"expr"`
 	Twin    string  `json:"twin"` // same path, the other spelling for named members
+	// Fresh (1: outer type asked first, 2: inner type asked first): the case is not a zoo path but a family of struct
+	// types created for this case - E{*P; M}, P{Name}, M{D}, D{Name}, T{E} -: Name means P's, for E and for T, in
+	// whatever order the engine meets the two types
+	Fresh int `json:"fresh,omitempty"`
+}
+
+var zFreshCounter int64
+
+// zFreshFamily builds the types (made unique by a field named after a process-wide counter) and values.
+func zFreshFamily() (t, e reflect.Value) {
+	n := atomic.AddInt64(&zFreshCounter, 1)
+	str := reflect.TypeOf("")
+	uniq := reflect.StructField{Name: fmt.Sprintf("U%d", n), Type: reflect.TypeOf(0)}
+	D := reflect.StructOf([]reflect.StructField{{Name: "Name", Type: str}, uniq})
+	M := reflect.StructOf([]reflect.StructField{{Name: "D", Type: D, Anonymous: true}})
+	P := reflect.StructOf([]reflect.StructField{{Name: "Name", Type: str}, {Name: "OnlyP", Type: str}, uniq})
+	E := reflect.StructOf([]reflect.StructField{{Name: "P", Type: reflect.PtrTo(P), Anonymous: true}, {Name: "M", Type: M, Anonymous: true}})
+	T := reflect.StructOf([]reflect.StructField{{Name: "E", Type: E, Anonymous: true}})
+	e = reflect.New(E).Elem()
+	p := reflect.New(P)
+	p.Elem().Field(0).SetString("shallow")
+	p.Elem().Field(1).SetString("only-p")
+	e.Field(0).Set(p)
+	e.Field(1).Field(0).Field(0).SetString("deep")
+	t = reflect.New(T).Elem()
+	t.Field(0).Set(e)
+	return t, e
+}
+
+func judgeC06Fresh(c c06Case) (v core.Verdict) {
+	t, e := zFreshFamily()
+	v.Label(fmt.Sprintf("fresh-embedding-family:%d", c.Fresh))
+	v.NonTrivial = true
+	tpl := "[{{ t.Name }}|{{ e.Name }}|{{ t.OnlyP }}|{{ e[\"Name\"] }}|{{ t.M.Name }}]"
+	if c.Fresh == 2 {
+		tpl = "[{{ e.Name }}|{{ t.Name }}|{{ e.OnlyP }}|{{ t[\"Name\"] }}|{{ e.M.Name }}]"
+	}
+	s, _ := jetrun.NewSet(map[string]string{"/fresh.jet": tpl})
+	tp, o := jetrun.Get(s, "/fresh.jet")
+	if !o.Failed() {
+		vars := jet.VarMap{}
+		vars.Set("t", t.Interface())
+		vars.Set("e", e.Interface())
+		o = jetrun.Exec(tp, vars, nil)
+	}
+	if o.Failed() || o.Out != "[shallow|shallow|only-p|shallow|deep]" {
+		v.Failf("%s over E{*P; M{D}} and T{E} (Name in P and in D): %s; Go selects [shallow|shallow|only-p|shallow|deep]", tpl, o)
+	}
+	return
 }
 
 func genZPath(t *rapid.T, root interface{}, maxLen int, invalidOdds int) []zStep {
@@ -92,6 +142,9 @@ func zTwin(steps []zStep) []zStep {
 }
 
 func genC06(t *rapid.T) c06Case {
+	if rapid.IntRange(0, 39).Draw(t, "freshFamily") == 0 {
+		return c06Case{Fresh: rapid.IntRange(1, 2).Draw(t, "freshOrder")}
+	}
 	c := c06Case{Variant: rapid.IntRange(0, 7).Draw(t, "variant")}
 	c.Base = []string{"var", "dot", "call"}[rapid.IntRange(0, 2).Draw(t, "base")]
 	root := zooRoot(c.Variant)
@@ -184,6 +237,9 @@ func isScalar(v reflect.Value) bool {
 }
 
 func judgeC06(c c06Case) (v core.Verdict) {
+	if c.Fresh != 0 {
+		return judgeC06Fresh(c)
+	}
 	root := zooRoot(c.Variant)
 	want, st, why := zResolve(root, c.Steps)
 	expr := zPathString(zBaseExpr(c.Base), c.Steps)
@@ -241,7 +297,7 @@ func judgeC06(c c06Case) (v core.Verdict) {
 
 func TestC06(t *testing.T) {
 	core.Run(t, "C06",
-		"access paths (1-4 steps) generated against the shape of a zoo value (8 variants: pointer/value root, pointer to an interface variable, nil pointers-maps-interfaces, typed nil, reached through map and interface slice, **T): exported / promoted (value- and pointer-embedded) / shadowed fields, map entries by name and by int or named-string key, interface-keyed entries under keys of different dynamic types, slice/array/string elements (indexes also as uintptr variables), keys that do not fit the key type or cannot be hashed, maps behind pointers, slices, value and pointer methods (also of defined int and slice types; value methods through nil pointers are errors), each named step spelt .name or [\"name\"], bases variable / '.' / call result; optionally ending in an invalid step (unexported or missing field, wrong-kind or out-of-range index, bad slice bounds, slice bounds that evaluate to nothing, nil dereference, nil embedded pointer); also: a field promoted through an embedded pointer that sits one level down against a by-value field of the same name one level deeper; a map keyed by an array of interfaces (present, absent and unhashable key values); oracle = direct reflect resolver: identical value (pointer identity / DeepEqual), other spelling agrees, scalar rendering, invalid => error not panic, absent key => nil; non-trivial = >=2 steps crossing a pointer or interface, or an invalid step at depth>=2",
+		"access paths (1-4 steps) generated against the shape of a zoo value (8 variants: pointer/value root, pointer to an interface variable, nil pointers-maps-interfaces, typed nil, reached through map and interface slice, **T): exported / promoted (value- and pointer-embedded) / shadowed fields, map entries by name and by int or named-string key, interface-keyed entries under keys of different dynamic types, slice/array/string elements (indexes also as uintptr variables), keys that do not fit the key type or cannot be hashed, maps behind pointers, slices, value and pointer methods (also of defined int and slice types; value methods through nil pointers are errors), each named step spelt .name or [\"name\"], bases variable / '.' / call result; optionally ending in an invalid step (unexported or missing field, wrong-kind or out-of-range index, bad slice bounds, slice bounds that evaluate to nothing, nil dereference, nil embedded pointer); also: a field promoted through an embedded pointer that sits one level down against a by-value field of the same name one level deeper; a map keyed by an array of interfaces (present, absent and unhashable key values); round 10: slots of a named empty interface type (typed nils, values, as field / element / map entry); a nil pointer to a defined non-struct type with a value-receiver method; two struct types of the same name with different layouts; a struct that embeds the pointer-shallow struct; a family of struct types created for the case (E{*P; M{D}}, T{E}) asked in either order; integer keys on string-keyed maps; oracle = direct reflect resolver: identical value (pointer identity / DeepEqual), other spelling agrees, scalar rendering, invalid => error not panic, absent key => nil; non-trivial = >=2 steps crossing a pointer or interface, or an invalid step at depth>=2",
 		genC06, judgeC06)
 }
 
